@@ -110,24 +110,33 @@ fn facade_authority_parts_5() {
     assert!(p.port.map(|x| x.as_bytes()) == q.port.map(|x| x.as_bytes()));
 }
 
-/// C01 from_vec: on bytes that are not UTF-8 the error hands the untouched input back. Bound: 3 bytes.
+/// C06 facade: the by-reference, by-value and in-place entry points of both families (wrappers in uri/ and
+/// iri/, outside Verus) return the same text as each other. Bound: references of up to 3 ASCII bytes against
+/// three fixed bases (with authority + query + fragment, rootless, empty path).
 #[kani::proof]
-#[kani::unwind(6)]
-fn from_vec_invalid_utf8_3() {
-    let b: [u8; 3] = kani::any();
-    let n: usize = kani::any();
-    kani::assume(n <= 3);
-    kani::assume(std::str::from_utf8(&b[..n]).is_err());
-    let v = b[..n].to_vec();
-    match iri::IriRefBuf::from_vec(v) {
-        Ok(_) => assert!(false),
-        Err(e) => assert!(e.0.as_slice() == &b[..n]),
-    }
-    let v = b[..n].to_vec();
-    match iri::IriBuf::from_vec(v) {
-        Ok(_) => assert!(false),
-        Err(e) => assert!(e.0.as_slice() == &b[..n]),
-    }
+#[kani::unwind(12)]
+fn facade_resolve_entrypoints_3() {
+    let (b, n) = any_ascii::<3>();
+    let s = &b[..n];
+    kani::assume(ref_shape(s));
+    // relative-path references whose first segment contains ':' are not references (they would be URIs)
+    let which: u8 = kani::any();
+    let base_txt: &[u8] = if which == 0 { b"s://h/a/b?q#f" } else if which == 1 { b"s:a/b#f" } else { b"s:#f" };
+    let base = unsafe { uri::Uri::new_unchecked(base_txt) };
+    let ibase = unsafe { iri::Iri::new_unchecked(std::str::from_utf8_unchecked(base_txt)) };
+    let u = unsafe { uri::UriRef::new_unchecked(s) };
+    let st = unsafe { std::str::from_utf8_unchecked(s) };
+    let i = unsafe { iri::IriRef::new_unchecked(st) };
+    let r1 = u.resolved(base);
+    let mut ub = unsafe { uri::UriRefBuf::new_unchecked(s.to_vec()) };
+    ub.resolve(base);
+    assert!(r1.as_bytes() == ub.as_bytes());
+    let r2 = i.resolved(ibase);
+    assert!(r2.as_bytes() == r1.as_bytes());
+    let mut ib = unsafe { iri::IriRefBuf::new_unchecked(st.to_owned()) };
+    ib.resolve(ibase);
+    assert!(ib.as_bytes() == r1.as_bytes());
+    assert!(base.as_bytes() == base_txt);
 }
 
 // C08 (Eq / Ord / Hash coherence): harnesses through Hash / PctStr (percent-decoding + utf8-decode loops)
